@@ -57,7 +57,8 @@ func c12Gen(r *Rand, tier string) interface{} {
 			l = append(l, c12Op{"yield"})
 		}
 		for i := 0; i < k; i++ {
-			l = append(l, c12Op{"child"})
+			// the new child is closed at once, or stopped / killed / failed first
+			l = append(l, c12Op{[]string{"child", "child", "child-stop", "child-kill", "child-err"}[r.Intn(5)]})
 		}
 		in.Tasks[ct] = l
 	}
@@ -143,13 +144,32 @@ func c12Run(inI interface{}, env *Env) *Failure {
 						_ = target.Errors()
 					case "yield":
 						simrt.Yield()
-					case "child":
+					case "child", "child-stop", "child-kill", "child-err":
 						cp := scope.ChildParams{Name: "c"}
 						if in.ChildIso {
 							cp.ContextScope = contextscope.NewIsolated(target.BaseContextScope())
 						}
 						c := scope.NewChild(target, cp)
 						simrt.Yield()
+						// signalling the child of a (possibly already done) scope is as safe as closing it
+						switch op.Op {
+						case "child-stop":
+							c.Stop()
+							c.Stop()
+						case "child-kill":
+							c.Kill()
+						case "child-err":
+							c.AppendError(&c12Err{fmt.Sprintf("child-e%d-%d", ti, oi)})
+							if !in.ChildIso {
+								signalled, failed = true, true // a child sharing the context fails the parent too
+							}
+						}
+						if op.Op == "child-kill" && !in.ChildIso {
+							signalled, failed = true, true
+						}
+						if op.Op == "child-stop" && !in.ChildIso {
+							signalled = true
+						}
 						_ = c.Close()
 						childClosed++
 					}
